@@ -303,9 +303,11 @@ def check_uniq(case, rec=None):
         glist.append(grain.grain(ubi, t))
         truth.append(k)
         for o in ops:                                       # the same grain found again in another setting
-            dR = small_rotation(rng, 0.2)
-            u2 = o @ np.linalg.inv(dR @ U @ B)
-            glist.append(grain.grain(u2, t + rng.uniform(-10, 10, 3)))
+            # slightly rotated, or (one in three) the exact symmetry equivalent as re-indexing the same peaks gives it
+            exact = rng.randint(3) == 0
+            dR = np.eye(3) if exact else small_rotation(rng, 0.2)
+            u2 = o @ (ubi if exact else np.linalg.inv(dR @ U @ B))
+            glist.append(grain.grain(u2, t.copy() if exact else t + rng.uniform(-10, 10, 3)))
             truth.append(k)
     nd = case["nbase"]
     for k in range(case["nbase"]):                          # a different grain at the same place, 2-5 degrees away
